@@ -293,6 +293,12 @@ func (fr *Frame) markLocal(st *State, ins ssa.Value, loc Term) {
 }
 
 func isIgnorableDefer(d *ssa.Defer) bool {
+	// `defer cancel()` of a context.CancelFunc: releases the context's resources, no effect on the modelled heap
+	if d.Call.Value != nil && !d.Call.IsInvoke() {
+		if nt, ok := types.Unalias(d.Call.Value.Type()).(*types.Named); ok && nt.Obj().Pkg() != nil && nt.Obj().Pkg().Path() == "context" && nt.Obj().Name() == "CancelFunc" {
+			return true
+		}
+	}
 	if c := d.Call.StaticCallee(); c != nil {
 		n := canonName(c)
 		if strings.HasPrefix(n, "sync.(*") {
